@@ -113,7 +113,7 @@ def run(ctx):
             except Exception as e:  # noqa: BLE001
                 problems.append(("sympy-constructor-raises", f"{fl}:{sig}: {type(e).__name__}: {str(e)[:80]}"))
     for dim in (2, 3, 4):
-        sigs = C.SIGS[dim] if ctx.tier == "thorough" else r.sample(C.SIGS[dim], min(4, len(C.SIGS[dim])))
+        sigs = C.SIGS[dim]          # every stored system in every tier (6 s)
         pts = [[repr(x) for x in p] for p in C.strata_points(dim, r, n_random=2)]
         pts = [p for p in pts if min(abs(float(x)) for x in p[:2]) > 0.05]     # regular domain: off the z axis
         for sig in sigs:
